@@ -58,6 +58,16 @@ def gen(rng, tier):
     for n in small:
         for f in one[:3]:
             reqs.append("C20 worksq %s %d %d" % (f, n, rng.randrange(1 << 20)))
+    # small top digits: a buffer-size computation that depends on the leading zeros of the top digits (C20-u1: `*=`
+    # drops the spare digit and mac3 then falls back to long multiplication) is invisible with full top digits
+    for (n, m) in sizes + [(300, 300), (tK + 40, tK + 40)]:
+        for (ta, tb) in ((1, 1), (1, MAX), (rng.randrange(1, 1 << 20), rng.randrange(1, 1 << 30)), (1 << 31, 1 << 32), ((1 << 32) - 1, (1 << 32) - 1)):
+            a = c02.pat(rng, n, "rand"); b = c02.pat(rng, m, "rand")
+            a[-1], b[-1] = ta, tb
+            for f in (two if tier == "thorough" else [two[k % len(two)], "assign", "assignv", "iassign"]):
+                reqs.append("C20 workf %s %s %s" % (f, wu(val(a)), wu(val(b))))
+            k += 1
+            reqs.append("C20 workf %s %s %s" % (one[k % len(one)], wu(val(a)), wu(val(a))))
     return reqs
 
 def _num(r):
